@@ -286,3 +286,44 @@ func (r TLCResult) MustViolate(what, inv string) {
 		infra("%s: negative control violated %q, expected %q\n%s", what, r.InvViolated, inv, r.Tail)
 	}
 }
+
+// ---------------------------------------------------------------------------------
+// monitor-style acceptors: records are written as ndjson, the module judges each record and
+// prints {"done":true,"consumed":n,"bad":[{"l":line,"why":...}]} in its last state.
+
+type badRec struct {
+	L   int    `json:"l"`
+	Why string `json:"why"`
+	Fn  string `json:"fn"`
+	T   int    `json:"t"`
+}
+
+func tlcJudge(module, cfg, file string, recs []interface{}) ([]badRec, TLCResult) {
+	var tr traceBuf
+	for _, r := range recs {
+		tr.add(r)
+	}
+	var verdict struct {
+		Done     bool     `json:"done"`
+		Consumed int      `json:"consumed"`
+		Bad      []badRec `json:"bad"`
+	}
+	got := false
+	r := RunTLC(TLCOpts{Module: module, Cfg: cfg, Workers: 1, Timeout: 60 * time.Minute,
+		Files: map[string][]byte{file: tr.bytes()}, OnJSON: func(raw []byte) {
+			var v struct {
+				Done     bool     `json:"done"`
+				Consumed int      `json:"consumed"`
+				Bad      []badRec `json:"bad"`
+			}
+			if json.Unmarshal(raw, &v) == nil && v.Done {
+				verdict = v
+				got = true
+			}
+		}})
+	r.MustOK(module)
+	if !got || verdict.Consumed != tr.n {
+		infra("%s did not consume all records (%d of %d)\n%s", module, verdict.Consumed, tr.n, r.Tail)
+	}
+	return verdict.Bad, r
+}
